@@ -152,7 +152,7 @@ Proof.
   change (op_store =? op_clear) with false. change (op_store =? op_store) with true. cbv iota.
   unfold srv_store. cbn [h_u0 h_u1 h_u2 h_u3 h_u4 h_size].
   rewrite !lenN_app in *.
-  rewrite N.add_assoc in *. rewrite (N.mod_small _ _ LEN), N.eqb_refl, (lenN_nonempty k NE). cbn [negb orb].
+  rewrite N.add_assoc in *. rewrite N.eqb_refl, (lenN_nonempty k NE). cbn [negb orb].
   rewrite <- lenN_app, app_assoc, drop_app, take_all, (load_enc_trigs trg G).
   rewrite <- app_assoc, take_app, drop_app, take_app.
   rewrite (mkset_id trg S), (z64_roundtrip dl I64). reflexivity.
